@@ -5,7 +5,7 @@ EXTENDS TraceLib
 R == INSTANCE Req
 VARIABLES l, bad, drift
 vars == <<l, bad, drift>>
-Fields == {"expanded", "base_compiles", "w_output", "w_send", "w_nonsend_body", "kept_async", "futout", "futsend", "attr_on_trait", "attr_on_impls"}
+Fields == {"expanded", "base_compiles", "w_output", "w_send", "w_nonsend_body", "kept_async", "futout", "futsend", "attr_on_trait", "attr_on_impls", "attr_on_item"}
 Init == l = 1 /\ bad = {} /\ drift = {}
 Step == /\ l <= Len(Rec) /\ l' = l + 1
         /\ LET e == Rec[l] IN
